@@ -13,13 +13,13 @@ open Dec
 
 /-! ### closed forms (these are the statements that depend on the generated tables) -/
 
-theorem doPost_eq (f : Facts) : doPost f = if f.doErr then ⟨.nil, .transport⟩ else ⟨.response, .none⟩ := by
+theorem doPost_eq (f : Facts) : doPost f = doPostRef f := by
+  unfold doPostRef
   obtain ⟨s, n, d, r, e⟩ := f
   cases n <;> cases d <;> rfl
 
-theorem check_eq (f : Facts) : check f =
-    if f.status = 200 then ⟨.nil, .none⟩
-    else if f.readErr || f.decodeErr then ⟨.nil, .generic⟩ else ⟨.errBody, .ipfs⟩ := by
+theorem check_eq (f : Facts) : check f = checkRef f := by
+  unfold checkRef
   obtain ⟨s, n, d, r, e⟩ := f
   by_cases h : s = 200
   · subst h; cases r <;> cases e <;> rfl
@@ -28,16 +28,14 @@ theorem check_eq (f : Facts) : check f =
       simp (config := {decide := true}) [h', check, evalTable, Gen.checkResponseDec, Path.known, Cond.known,
         Val.known, Er.known, Cond.eval, Cmp.eval, evIsErr, List.find?, h]
 
-theorem post_eq (f : Facts) : post f =
-    if f.doErr then ⟨.nil, .transport⟩
-    else if f.status = 200 then (if f.readErr then ⟨.nil, .read⟩ else ⟨.body, .none⟩)
-    else if f.readErr || f.decodeErr then ⟨.nil, .generic⟩ else ⟨.errBody, .ipfs⟩ := by
+theorem post_eq (f : Facts) : post f = postRef f := by
+  unfold postRef
   obtain ⟨s, n, d, r, e⟩ := f
   by_cases h : s = 200
   · subst h; cases n <;> cases d <;> cases r <;> cases e <;> rfl
   · have h' : (s == 200) = false := by simp [h]
     cases n <;> cases d <;> cases r <;> cases e <;>
-      simp (config := {decide := true}) [h', post, doPost_eq, check_eq, evalTable, Gen.postCtxDec, Path.known,
+      simp (config := {decide := true}) [h', post, doPost_eq, check_eq, doPostRef, checkRef, evalTable, Gen.postCtxDec, Path.known,
         Cond.known, Val.known, Er.known, Cond.eval, Cmp.eval, evIsErr, List.find?, h, failClosed]
 
 /-! ### every point of the product space, by cases
@@ -52,18 +50,19 @@ macro "wire_cases" b:ident : tactic => `(tactic| (
     rcases tr with _ | _ | _ | ⟨_ | _⟩ | _ <;>
     rcases body with _ | _ | ⟨_ | _ | _ | _⟩ | _ | _ | _ | _ | _ | _ | _ | _ | _ | _ <;>
       simp (config := {decide := true}) [clsPost, clsPlain, clsAdd, clsAt, clsFirst, clsErr, Beh.stalls, Beh.plain,
-        post_eq, doPost_eq, check_eq, Beh.facts, Body.decodesAsErrObj, Body.msg]
+        post_eq, doPost_eq, check_eq, postRef, doPostRef, checkRef, Beh.facts, Body.decodesAsErrObj, Body.msg]
   · have h200' : (s == 200) = false := by simp [h200]
     rcases tr with _ | _ | _ | ⟨_ | _⟩ | _ <;>
     rcases body with _ | _ | ⟨_ | _ | _ | _⟩ | _ | _ | _ | _ | _ | _ | _ | _ | _ | _ <;>
       simp (config := {decide := true}) [clsPost, clsPlain, clsAdd, clsAt, clsFirst, clsErr, Beh.stalls, Beh.plain,
-        post_eq, doPost_eq, check_eq, Beh.facts, Body.decodesAsErrObj, Body.msg, h200, h200']))
+        post_eq, doPost_eq, check_eq, postRef, doPostRef, checkRef, Beh.facts, Body.decodesAsErrObj, Body.msg, h200, h200']))
 
 theorem post_ok_iff (b : Beh) : (post b.facts).err = .none ↔ b.status = 200 ∧ b.transport = .full := by
   wire_cases b
 
 theorem post_ok_body (f : Facts) (h : (post f).err = .none) : (post f).body = .body := by
   rw [post_eq] at h ⊢
+  unfold postRef at h ⊢
   split_ifs at h ⊢ <;> simp_all
 
 theorem post_ipfs_iff (b : Beh) :
@@ -75,6 +74,7 @@ theorem post_nil_body_iff (f : Facts) :
     ((post f).body = .nil ∧ (post f).err ≠ .none) ↔
       ((post f).err = .transport ∨ (post f).err = .generic ∨ (post f).err = .read) := by
   rw [post_eq]
+  unfold postRef
   split_ifs <;> simp
 
 theorem post_read_iff (b : Beh) :
@@ -83,6 +83,7 @@ theorem post_read_iff (b : Beh) :
 
 theorem check_ok_iff (f : Facts) : (check f).err = .none ↔ f.status = 200 := by
   rw [check_eq]
+  unfold checkRef
   split_ifs <;> simp_all
 
 /-- the content type is never looked at -/
@@ -133,11 +134,11 @@ theorem clsPost_notPinned_iff (b : Beh) :
   · subst h200
     rcases tr with _ | _ | _ | ⟨_ | _⟩ | _ <;>
     rcases body with _ | _ | ⟨_ | _ | _ | _⟩ | _ | _ | _ | _ | _ | _ | _ | _ | _ | _ <;>
-      simp (config := {decide := true}) [clsPost, clsErr, Beh.stalls, post_eq, Beh.facts, Body.decodesAsErrObj, Body.msg]
+      simp (config := {decide := true}) [clsPost, clsErr, Beh.stalls, post_eq, postRef, Beh.facts, Body.decodesAsErrObj, Body.msg]
   · have h200' : (s == 200) = false := by simp [h200]
     rcases tr with _ | _ | _ | ⟨_ | _⟩ | _ <;>
     rcases body with _ | _ | ⟨_ | _ | _ | _⟩ | _ | _ | _ | _ | _ | _ | _ | _ | _ | _ <;>
-      simp (config := {decide := true}) [clsPost, clsErr, Beh.stalls, post_eq, Beh.facts, Body.decodesAsErrObj,
+      simp (config := {decide := true}) [clsPost, clsErr, Beh.stalls, post_eq, postRef, Beh.facts, Body.decodesAsErrObj,
         Body.msg, h200, h200']
 
 /-- an IPFS error object is recognised exactly on a complete non-200 reply whose body decodes -/
@@ -149,11 +150,11 @@ theorem clsPost_ipfs_iff (b : Beh) :
   · subst h200
     rcases tr with _ | _ | _ | ⟨_ | _⟩ | _ <;>
     rcases body with _ | _ | ⟨_ | _ | _ | _⟩ | _ | _ | _ | _ | _ | _ | _ | _ | _ | _ <;>
-      simp (config := {decide := true}) [clsPost, clsErr, Beh.stalls, post_eq, Beh.facts, Body.decodesAsErrObj, Body.msg]
+      simp (config := {decide := true}) [clsPost, clsErr, Beh.stalls, post_eq, postRef, Beh.facts, Body.decodesAsErrObj, Body.msg]
   · have h200' : (s == 200) = false := by simp [h200]
     rcases tr with _ | _ | _ | ⟨_ | _⟩ | _ <;>
     rcases body with _ | _ | ⟨_ | _ | _ | _⟩ | _ | _ | _ | _ | _ | _ | _ | _ | _ | _ <;>
-      simp (config := {decide := true}) [clsPost, clsErr, Beh.stalls, post_eq, Beh.facts, Body.decodesAsErrObj,
+      simp (config := {decide := true}) [clsPost, clsErr, Beh.stalls, post_eq, postRef, Beh.facts, Body.decodesAsErrObj,
         Body.msg, h200, h200']
 
 /-- pin/add is reported as done only for a complete 200 stream that carries no error -/
